@@ -14,6 +14,7 @@ struct Case {
 typedef std::function<void(const Case &)> CB;
 typedef drv::Level<Case> Level;
 
+static std::vector<std::string> g_corpus_baseline;  // result of each corpus compilation executed first in a fresh process
 static std::vector<std::string> g_baseline;  // result of each operation executed first in a fresh process
 static std::string in_fresh_process(const std::function<std::string()> &f) {
   int fd[2]; if (pipe(fd)) exit(2); fflush(0); pid_t p = fork();
@@ -41,6 +42,15 @@ static void oracle(const Case &c, vf::Stats &st) {
     std::string r = in_fresh_process([&]() { return det::run_op(c.ops[0], nullptr); });
     st.nontrivial.insert(c.hash()); st.outcomes.insert(vf::fnv(r));
     if (r != g_baseline[c.ops[0]]) st.violation(key, std::string("two fresh processes disagree on ") + det::op_name(c.ops[0]) + " " + first_diff(r, g_baseline[c.ops[0]]), cj);
+    return;
+  }
+  if (c.kind == "corpus") {
+    std::string verdict = in_fresh_process([&]() {
+      std::string v;
+      for (size_t i = 0; i < c.ops.size(); i++) { std::string r = det::run_corpus(c.ops[i]); if (r != g_corpus_baseline[c.ops[i]]) { v = "compilation " + std::to_string(i) + " (" + det::corpus()[c.ops[i]].what + ") after"; for (size_t k = 0; k < i; k++) v += std::string(" [") + det::corpus()[c.ops[k]].what + "]"; v += " differs from its result in a fresh process " + first_diff(r, g_corpus_baseline[c.ops[i]]); break; } }
+      return v; });
+    st.add("operations_compared", (long long)c.ops.size()); st.nontrivial.insert(c.hash()); st.outcomes.insert(vf::fnv(verdict) ^ vf::fnv(g_corpus_baseline[c.ops.back()]));
+    if (!verdict.empty()) st.violation(key, verdict, cj);
     return;
   }
   if (c.kind == "history") {
@@ -82,6 +92,12 @@ static Level fam_histories(int d) {
             for (int len = 1; len <= d; len++) { std::vector<int> ix(len, 0);
               for (;;) { Case c; c.kind = "history"; c.ops = ix; cb(c); int i = 0; while (i < len && ++ix[i] == det::NOPS) ix[i++] = 0; if (i == len) break; } } }};
 }
+static Level fam_corpus(int d) {
+  return {"all sequences<=" + std::to_string(d) + " of " + std::to_string(det::corpus().size()) + " name-colliding compilations", [=](const CB &cb) {
+            int N = (int)det::corpus().size();
+            for (int len = 2; len <= d; len++) { std::vector<int> ix(len, 0);
+              for (;;) { Case c; c.kind = "corpus"; c.ops = ix; cb(c); int i = 0; while (i < len && ++ix[i] == N) ix[i++] = 0; if (i == len) break; } } }};
+}
 static Level fam_twovm(int la, int lb, bool different_programs = false) {
   return {std::string("two VMs on ") + (different_programs ? "two different programs (same files/lines)" : "one program") + ": 12x12 history pairs (" + std::to_string(la) + "," + std::to_string(lb) + " calls) x all interleavings", [=](const CB &cb) {
             for (int ia = 0; ia < 12; ia++) for (int ib = 0; ib < 12; ib++) for (unsigned mask = 0; mask < (1u << (la + lb)); mask++) {
@@ -92,8 +108,9 @@ static Level fam_twovm(int la, int lb, bool different_programs = false) {
 int main(int argc, char **argv) {
   drv::Args args = drv::Args::parse(argc, argv); bool T = args.thorough();
   for (int i = 0; i < det::NOPS; i++) g_baseline.push_back(in_fresh_process([i]() { return det::run_op(i, nullptr); }));
+  for (int i = 0; i < (int)det::corpus().size(); i++) g_corpus_baseline.push_back(in_fresh_process([i]() { return det::run_corpus(i); }));
   Level fresh = {"reproducible across fresh processes", [](const CB &cb) { for (int rep = 0; rep < 3; rep++) for (int i = 0; i < det::NOPS; i++) { Case c; c.kind = "fresh"; c.ops = {i, rep}; cb(c); } }};
-  std::vector<Level> L = {fresh, fam_histories(3), fam_twovm(3, 2), fam_twovm(3, 2, true)};
+  std::vector<Level> L = {fresh, fam_corpus(2), fam_histories(3), fam_twovm(3, 2), fam_twovm(3, 2, true), fam_corpus(3)};
   if (T) { L.push_back(fam_histories(4)); L.push_back(fam_twovm(4, 3)); L.push_back(fam_twovm(4, 3, true)); L.push_back(fam_histories(5)); }
   return drv::run<Case>(args, L, oracle, {}, 60);
 }
